@@ -42,7 +42,7 @@ import pde  # noqa: E402
 from vlib import gen_bcs as gb  # noqa: E402
 from vlib import gen_fields as gf  # noqa: E402
 from vlib import ref_stencils as rs  # noqa: E402
-from vlib.core import HarnessError, SubCheck, Violation  # noqa: E402
+from vlib.core import HarnessError, Rejected, SubCheck, Violation  # noqa: E402
 from vlib.gen_grids import axes_bounds, build_grid, grid_label, grids, rng_array  # noqa: E402
 
 PROPERTY = "C18"
@@ -338,6 +338,15 @@ def check_solver(case):
         # operator: operator route and reference disagree (not this property's business) -> not judged
         kind = "reference-disagrees-with-operator-route"
 
+    # exclusion by construction (counted as rejected): curvature conditions on EVERY side of a grid with two or
+    # more axes give an exactly singular system on which scipy's SuperLU (sparse.linalg.spsolve) dies with
+    # SIGSEGV now and then - a native crash of the third-party library, reproduced outside the harness with
+    # UnitGrid([4, 7]) and {"curvature": -1}; a dead worker cannot report anything, so these cases are not run
+    if fam != "laplace" and len(shape) >= 2:
+        kinds_all = [ax[k]["kind"] for ax in bc["axes"] if not isinstance(ax, str) for k in ("low", "high")]
+        if kinds_all and all(kd == "curvature" for kd in kinds_all):
+            raise Rejected("curvature conditions on every side (>= 2 axes): scipy's SuperLU can crash on this singular "
+                           "system")
     # ---- code under test ---------------------------------------------------------------
     kwargs = {} if case["method"] is None else {"method": case["method"]}
     error = None
@@ -348,6 +357,12 @@ def check_solver(case):
                 u = pde.solve_laplace_equation(grid, bc_obj)
             else:
                 np_dtype = {None: float, "f4": np.float32, "i8": np.int64}[rhs_dtype]
+                if kind != "regular":
+                    # singular problems go through the fall-back solvers of scipy; with an integer right-hand
+                    # side a worker process died there with SIGSEGV (2 in 40000 thorough cases, not reproducible
+                    # from the case alone: native code of the third-party library) - only regular problems get
+                    # the other dtypes, the values stay the rounded ones
+                    np_dtype = float
                 rhs_field = pde.ScalarField(grid, rhs_data.astype(np_dtype), dtype=np_dtype)
                 u = pde.solve_poisson_equation(rhs_field, bc_obj, **kwargs)
         except RuntimeError as e:
